@@ -153,7 +153,7 @@ func HarnessC12_Record() {
 		if err != nil {
 			return
 		}
-		vAssert(vAnd(q.configurationVersion == 1, vAnd(uint8(q.AVCProfileIndication) == profile, vAnd(q.profileCompatibility == compat, uint8(q.AVCLevelIndication) == level))), what+": profile/compat/level equal")
+		vAssert(vAnd(q.configurationVersion == 1, vAnd(q.AVCProfileIndication == AVCProfile(profile), vAnd(q.profileCompatibility == compat, uint8(q.AVCLevelIndication) == level))), what+": profile/compat/level equal")
 		vAssert(q.LengthSizeMinusOne == lsm1, what+": lengthSizeMinusOne equal")
 		vAssert(vAnd(len(q.SequenceParameterSetNALUnits) == len(sps), len(q.PictureParameterSetNALUnits) == len(pps)), what+": SPS/PPS counts equal")
 		if len(q.SequenceParameterSetNALUnits) == len(sps) && len(q.PictureParameterSetNALUnits) == len(pps) {
@@ -187,6 +187,9 @@ func HarnessC12_Sample() {
 	var ref []byte
 	for i := 0; i < k; i++ {
 		n := vChoice(3)
+		if vTier() == 0 && i == 0 && lsm1 >= 2 && k == 1 && vChoice(2) == 1 {
+			n = 65536 // the first size that needs more than two length bytes
+		}
 		if vTier() == 1 && i == 0 {
 			// boundary sizes for the length field: fit within the length size
 			c := []int{0, 1, 2, 253, 254, 255}
